@@ -231,6 +231,20 @@ def run_history(hist):
             da, db = sha(a), sha(b)
             recs.append({'long': da, 'fresh': db, 'same': da == db, 'obs': _brief(a), 'fresh_obs': _brief(b), 'kind': eff['op'],
                          'failed': isinstance(a, list) and a and a[0] in ('EXC', 'FOREIGN')})
+            if eff['op'] == 'compile' and eff.get('solo') and isinstance(b, dict) and hist.get('fresh', True):
+                # every module written by the joint call, compiled on its own by fresh objects: same sources, same options
+                solo = {}
+                for m in sorted(b['written']):
+                    if m in basemibs.ALL_BASE or len(b['written']) < 2:
+                        continue
+                    one = Instances()
+                    e1 = dict(eff)
+                    e1['requested'] = [m]
+                    o1 = execute(one, e1, [])
+                    one.close()
+                    if isinstance(o1, dict) and m in o1['written']:
+                        solo[m] = [b['written'][m], o1['written'][m]]
+                recs[-1]['solo'] = solo
             w.end_op()
     long_lived.close()
     return recs
